@@ -38,9 +38,11 @@ func genWriteOp(rng *rand.Rand, nctx int, allowCtx bool) Op {
 		return Op{Kind: "ww", Bufs: [][]byte{payload(rng, sz)}}
 	case k < 9 && allowCtx:
 		ctx := "live"
-		switch rng.Intn(4) {
+		switch rng.Intn(5) {
 		case 0:
 			ctx = "done"
+		case 4:
+			ctx = "dl"
 		case 1:
 			if nctx > 0 {
 				ctx = fmt.Sprintf("k%d", rng.Intn(nctx))
@@ -83,6 +85,12 @@ func genScenario(prop string, rng *rand.Rand) *Scenario {
 			sc.Until = rng.Intn(2) == 0
 		}
 	}
+	if (prop == "C05" || prop == "C07") && !sc.Sync && rng.Intn(2) == 0 {
+		sc.FailAt = 1 + rng.Intn(2)
+		if prop == "C07" {
+			closers = 0
+		}
+	}
 	sc.NCtx = cancellers
 	nw := 1 + rng.Intn(3)
 	for w := 0; w < nw; w++ {
@@ -108,6 +116,9 @@ func genScenario(prop string, rng *rand.Rand) *Scenario {
 		th.Ops = append(th.Ops, Op{Kind: "cl", Err: []string{"e1", "e2", "nil"}[rng.Intn(3)]})
 		if prop == "C11" || rng.Intn(3) == 0 {
 			th.Ops = append(th.Ops, genWriteOp(rng, sc.NCtx, true))
+		}
+		if prop == "C05" || prop == "C11" || rng.Intn(3) == 0 {
+			th.Ops = append(th.Ops, Op{Kind: "ia"})
 		}
 		sc.Threads = append(sc.Threads, th)
 	}
